@@ -22,6 +22,8 @@ G == Ec!G
 F32(a) == BN!ToFixed(a, 32)                      \* field element / integer -> 32 bytes (4.2.2, 4.2.6)
 OS2I(bytes) == BN!Norm(bytes)                     \* byte string -> integer (4.2.3)
 NMinus1 == BN!Sub(N, <<1>>)
+(* xor of byte strings as a concrete tuple (a function constructor would stay a lazy value in TLC) *)
+XorB(a, b) == SubSeq(By!BXor(a, b), 1, Len(a))
 InRange1(a, hi) == ~BN!IsZero(a) /\ BN!Le(a, hi)  \* a in [1, hi]
 
 (* ------------------------------------------------------------------ keys *)
@@ -73,7 +75,7 @@ EncryptWithK(Q, k, M) ==
               y2 == F32(kQ[2])
               t == Kd!KDF(x2 \o y2, Len(M))
           IN IF By!AllZero(t) THEN NoCt
-             ELSE [ok |-> TRUE, c1 |-> Ec!Mul(k, G), c2 |-> By!BXor(M, t), c3 |-> H!Hash(x2 \o M \o y2),
+             ELSE [ok |-> TRUE, c1 |-> Ec!Mul(k, G), c2 |-> XorB(M, t), c3 |-> H!Hash(x2 \o M \o y2),
                    x2 |-> x2, y2 |-> y2]
 NoMsg == [ok |-> FALSE, msg |-> <<>>]
 (* 32918.4 7.1 B1-B7: C1 a pair <<x, y>> (or Inf) as decoded from the ciphertext *)
@@ -85,7 +87,7 @@ Decrypt(d, C1, C2, C3) ==
                    y2 == F32(dC[2])
                    t == Kd!KDF(x2 \o y2, Len(C2))
                IN IF By!AllZero(t) THEN NoMsg                  \* B4
-                  ELSE LET m == By!BXor(C2, t)
+                  ELSE LET m == XorB(C2, t)
                        IN IF H!Hash(x2 \o m \o y2) = C3 THEN [ok |-> TRUE, msg |-> m] ELSE NoMsg   \* B6
 (* byte-string ciphertexts: C1 as 04||x||y ("u") or 02/03||x ("c"); order C1||C3||C2 (32918.4-2016) *)
 (* or C1||C2||C3 (the 2010 draft order, still in use)                                              *)
@@ -111,7 +113,7 @@ DecryptBytes(d, s, layout) ==
 (* w = ceil(ceil(log2 n) / 2) - 1  (127 for a 256-bit n that is not a power of two) *)
 W == ((BN!BitLen(N) + 1) \div 2) - 1
 TwoW == LET RECURSIVE Pw(_)
-            Pw(i) == IF i = 0 THEN <<1>> ELSE BN!Add(Pw(i - 1), Pw(i - 1))
+            Pw(i) == IF i = 0 THEN <<1>> ELSE LET h == Pw(i - 1) IN BN!Add(h, h)
         IN Pw(W)
 (* x~ = 2^w + (x & (2^w - 1)) *)
 XBar(x) == BN!Add(TwoW, BN!Mod(x, TwoW))
